@@ -447,10 +447,34 @@ fn trace_counting(
     non_root_list: &mut LinkedList,
     queue: &mut LinkedQueue,
 ) {
+    /// If a panic unwinds the counting phase, the objects still buffered in `possible_cycles` may have
+    /// had their tracing counter incremented by objects traced before the panic. The next collection
+    /// assumes that the tracing counter of every buffered object is 0, so reset them here.
+    struct ResetTracingCountersGuard<'a> {
+        possible_cycles: &'a PossibleCycles,
+    }
+
+    impl Drop for ResetTracingCountersGuard<'_> {
+        #[inline]
+        fn drop(&mut self) {
+            let mut next = self.possible_cycles.first();
+            while let Some(ptr) = next {
+                unsafe {
+                    ptr.as_ref().counter_marker().reset_tracing_counter();
+                    next = *ptr.as_ref().get_next();
+                }
+            }
+        }
+    }
+
+    let reset_guard = ResetTracingCountersGuard { possible_cycles };
+
     while let Some(ptr) = possible_cycles.remove_first() {
         // The tracing counter has already been reset by add_to_list(...)
         __trace_counting(ptr, root_list, non_root_list, queue);
     }
+
+    mem::forget(reset_guard); // possible_cycles is empty from here on
 
     while let Some(ptr) = queue.poll() {
         // The tracing counter has already been reset by CcBox::trace when ptr was inserted into the queue
